@@ -300,6 +300,18 @@ Definition scan_octets_text (q : bool) (t : text) : outcome (bytes * text) :=
   if closed then Ok (pre, rest)
   else do x <- lex q E0 rest; do o <- map_o into_octet (fst x); Ok (pre ++ o, snd x).
 
+(* the symbols of a token as the in-place scanners (scan_octets, convert_label,
+   convert_charstr) see them: in the unescaped printable prefix next_ascii_symbol hands out
+   octets verbatim, so an unescaped DEL there counts as the octet 127 *)
+Fixpoint lex_fast (q : bool) (t : text) : outcome (list sym * text) :=
+  match t with
+  | [] => Err E_short
+  | c :: r =>
+      if q && (c =? ch_quote) then Ok ([], r)
+      else if (c <? fast_lo) || (fast_hi <? c) || (if q then c =? 92 else mem c fast_unquoted_excl) then lex q E0 t
+      else do x <- lex_fast q r; Ok ((if c =? 127 then SDec 127 else SChar c) :: fst x, snd x)
+  end.
+
 (* scan_charstr / convert_charstr *)
 Definition read_charstr (t : tok) : outcome bytes :=
   do b <- read_octets t;
@@ -335,6 +347,7 @@ Fixpoint name_syms (s : list sym) (cur : bytes) (k : N) (done : list bytes) (w :
       | SChar 46 =>
           let w' := w + 1 + k in
           if w' =? 1 then (match r with [] => Ok (NAbs []) | _ => Err E_name end)
+          else if k =? 0 then Err E_name            (* two consecutive dots *)
           else if name_write_max <? w' then Err E_name
           else name_syms r [] 0 (rev cur :: done) w'
       | _ =>
@@ -487,12 +500,47 @@ Definition scan_ctr (ts : list tok) : outcome (option N * option N * N * list to
 
 (* ------------------------------------------------------------------ presentation schema *)
 
+(* Ipv4Addr: Display is four decimal octets joined by dots; FromStr accepts exactly four
+   groups of one to three digits without a leading zero (a lone 0 is fine), each at most 255 *)
+Definition show_ip4 (a : bytes) : text :=
+  match a with
+  | [a1; a2; a3; a4] => show_dec a1 ++ 46 :: show_dec a2 ++ 46 :: show_dec a3 ++ 46 :: show_dec a4
+  | _ => []
+  end.
+Fixpoint split_dots (cur : text) (s : text) : list text :=
+  match s with
+  | [] => [rev cur]
+  | c :: r => if c =? 46 then rev cur :: split_dots [] r else split_dots (c :: cur) r
+  end.
+Definition parse_ip4_octet (p : text) : option N :=
+  match p with
+  | [] => None
+  | c :: r =>
+      if all_digits p && Nat.leb (length p) 3 && negb ((c =? 48) && negb (match r with [] => true | _ => false end))
+         && (dec_value p <=? 255)
+      then Some (dec_value p) else None
+  end.
+Definition parse_ip4 (s : text) : option bytes :=
+  match split_dots [] s with
+  | [p1; p2; p3; p4] =>
+      match parse_ip4_octet p1, parse_ip4_octet p2, parse_ip4_octet p3, parse_ip4_octet p4 with
+      | Some a1, Some a2, Some a3, Some a4 => Some [a1; a2; a3; a4]
+      | _, _, _, _ => None
+      end
+  | _ => None
+  end.
+
 Inductive fkind :=
 | FUint (max : N)      (* u8 / u16 / u32 in decimal *)
 | FName                (* domain name, fmt_with_dot / scan_name *)
 | FCharstr             (* display_quoted / scan_charstr *)
 | FWord                (* an opaque word-safe token (Base16/32/64 text, addresses, mnemonics): its text *)
 | FCharstrs            (* rest of the entry: one or more quoted character strings (TXT) *)
+| FRtype               (* a record type: mnemonic or TYPEnnn (Rtype Display / Rtype::scan) *)
+| FTypes               (* rest of the entry: record types (RtypeBitmap: NSEC, NSEC3), possibly none *)
+| FSalt                (* NSEC3 salt: a block of its own holding "-" or a Base16 word *)
+| FIp4                 (* IPv4 address: Ipv4Addr Display / scan_octets + Ipv4Addr::from_str *)
+| FQuoted              (* quoted octets without a length limit (DisplayQuoted::from_slice / scan_octets: CAA value) *)
 | FRest.               (* rest of the entry: the word texts of all remaining tokens, concatenated
                           (convert_entry: Base16/Base64 text that may be split over tokens or absent) *)
 
@@ -502,7 +550,12 @@ Inductive fval :=
 | VCharstr (b : bytes)
 | VWord (w : text)
 | VCharstrs (l : list bytes)
-| VRest (w : text).
+| VRest (w : text)
+| VRtype (n : N)
+| VTypes (l : list N)
+| VSalt (w : text)      (* the Base16 text of the salt, empty for no salt *)
+| VQuoted (b : bytes)
+| VIp4 (a : bytes).     (* the four octets *)
 
 Definition show_field (v : fval) : list op :=
   match v with
@@ -512,11 +565,17 @@ Definition show_field (v : fval) : list op :=
   | VWord w => [OTok w]
   | VCharstrs l => map (fun b => OTok (show_cstr_quoted b)) l
   | VRest w => [OTok w]
+  | VRtype n => [OTok (show_rtype n)]
+  | VTypes l => map (fun n => OTok (show_rtype n)) l
+  | VSalt w => [OBegin; OTok (match w with [] => [45] | _ => w end)]   (* the block is closed after the comment *)
+  | VQuoted b => [OTok (show_cstr_quoted b)]
+  | VIp4 a => [OTok (show_ip4 a)]
   end.
 
 (* a field with the comment the writer attaches to it *)
 Definition field_ops (fc : fval * option text) : list op :=
-  show_field (fst fc) ++ match snd fc with Some c => [OComment c] | None => [] end.
+  show_field (fst fc) ++ match snd fc with Some c => [OComment c] | None => [] end
+  ++ match fst fc with VSalt _ => [OEnd] | _ => [] end.
 
 Definition data_ops (block : bool) (fs : list (fval * option text)) : list op :=
   if block then OBegin :: flat_map field_ops fs ++ [OEnd] else flat_map field_ops fs.
@@ -528,6 +587,11 @@ Fixpoint word_text (s : list sym) : outcome text :=
   | _ => Err E_symbol
   end.
 
+(* Rtype::scan: scan_ascii_str + FromStr *)
+Definition read_rtype (t : tok) : outcome N :=
+  do s <- read_ascii t;
+  match parse_rtype s with Some n => Ok n | None => Err E_rtype end.
+
 Definition read_field (k : fkind) (ts : list tok) : outcome (fval * list tok) :=
   match k with
   | FCharstrs =>
@@ -536,6 +600,7 @@ Definition read_field (k : fkind) (ts : list tok) : outcome (fval * list tok) :=
       | _ => do l <- map_o read_charstr ts; Ok (VCharstrs l, [])
       end
   | FRest => do ws <- map_o (fun t => word_text (t_syms t)) ts; Ok (VRest (concat ws), [])
+  | FTypes => do l <- map_o read_rtype ts; Ok (VTypes l, [])
   | _ =>
       match ts with
       | [] => Err E_tokens
@@ -545,7 +610,13 @@ Definition read_field (k : fkind) (ts : list tok) : outcome (fval * list tok) :=
           | FName => do n <- read_name None t; Ok (VName n, r)
           | FCharstr => do b <- read_charstr t; Ok (VCharstr b, r)
           | FWord => do w <- word_text (t_syms t); Ok (VWord w, r)
-          | FCharstrs | FRest => Err E_tokens
+          | FRtype => do n <- read_rtype t; Ok (VRtype n, r)
+          | FSalt => do w <- word_text (t_syms t);
+                     Ok (VSalt (match w with [45] => [] | _ => w end), r)
+          | FQuoted => do b <- read_octets t; Ok (VQuoted b, r)
+          | FIp4 => do b <- read_octets t;
+                    match parse_ip4 b with Some a => Ok (VIp4 a, r) | None => Err E_symbol end
+          | FCharstrs | FRest | FTypes => Err E_tokens
           end
       end
   end.
@@ -604,20 +675,31 @@ Definition compat (w r : N) : bool :=
   | 1, 1 | 2, 2 | 3, 3 | 4, 4 | 5, 5 | 6, 6 | 7, 7 | 8, 8 | 9, 9 => true
   | 3, 10 => true          (* Timestamp: written as a u32 in decimal, read by Timestamp::scan (<= 10 digits: u32) *)
   | 1, 13 => true          (* decimal enum: written as u8, read by FromStr = decimal u8 *)
-  | 8, 14 => true          (* type mnemonic / TYPEnnn *)
+  | 13, 14 => true         (* type mnemonic / TYPEnnn *)
+  | 10, 11 => true         (* type list of an NSEC / NSEC3 bitmap *)
+  | 11, 12 => true         (* NSEC3 salt *)
+  | 12, 15 => true         (* Base32hex word in mid-record (NSEC3 next owner hash) *)
+  | 14, 8 => true          (* quoted octets, read by scan_octets (CAA value) *)
+  | 15, 16 => true         (* IPv4 address *)
+  | 8, 5 => true           (* word read by scan_charstr (CAA tag: letters and digits only) *)
   | _, _ => false
   end.
 
-(* the field kind of the model for a reader kind *)
-Definition fkind_of (r : N) : option fkind :=
+(* the field kind of the model for a (writer kind, reader kind) pair *)
+Definition fkind_of (w r : N) : option fkind :=
   match r with
   | 1 | 13 => Some (FUint 255)
   | 2 => Some (FUint 65535)
   | 3 | 10 => Some (FUint 4294967295)
   | 4 => Some FName
-  | 5 => Some FCharstr
+  | 5 => if w =? 8 then Some FWord else Some FCharstr
   | 6 | 7 => Some FRest
-  | 8 | 14 => Some FWord
+  | 8 => if w =? 14 then Some FQuoted else Some FWord
+  | 14 => Some FRtype
+  | 16 => Some FIp4
+  | 11 => Some FTypes
+  | 12 => Some FSalt
+  | 15 => Some FWord
   | 9 => Some FCharstrs
   | _ => None
   end.
@@ -628,7 +710,8 @@ Fixpoint opt_map {A B} (f : A -> option B) (l : list A) : option (list B) :=
   | x :: r => match f x, opt_map f r with Some y, Some ys => Some (y :: ys) | _, _ => None end
   end.
 
-Definition schema_kinds (e : schema) : option (list fkind) := opt_map fkind_of (s_rkinds e).
+Definition schema_kinds (e : schema) : option (list fkind) :=
+  opt_map (fun p => fkind_of (fst p) (snd p)) (combine (map fst (s_wfields e)) (s_rkinds e)).
 
 Fixpoint compat_all (ws : list (N * (N * list N))) (rs : list N) : bool :=
   match ws, rs with
@@ -636,7 +719,7 @@ Fixpoint compat_all (ws : list (N * (N * list N))) (rs : list N) : bool :=
   | w :: wr, r :: rr =>
       compat (fst w) r && compat_all wr rr &&
       (* a field that reads to the end of the entry is the last one *)
-      (match r with 6 | 7 | 9 => match rr with [] => true | _ => false end | _ => true end)
+      (match r with 6 | 7 | 9 | 11 => match rr with [] => true | _ => false end | _ => true end)
   | _, _ => false
   end.
 
@@ -652,7 +735,8 @@ Fixpoint find_schema (l : list schema) (code : N) : option schema :=
 Definition val_matches (k : fkind) (v : fval) : bool :=
   match k, v with
   | FUint _, VUint _ | FName, VName _ | FCharstr, VCharstr _ | FWord, VWord _
-  | FCharstrs, VCharstrs _ | FRest, VRest _ => true
+  | FCharstrs, VCharstrs _ | FRest, VRest _ | FRtype, VRtype _ | FTypes, VTypes _ | FSalt, VSalt _
+  | FQuoted, VQuoted _ | FIp4, VIp4 _ => true
   | _, _ => false
   end.
 
@@ -782,18 +866,32 @@ Definition c06_owner (line : text) : outcome (list bytes) :=
   | [t; _; _; _; _] => read_owner None t
   | _ => Err E_tokens
   end.
-(* ". 0 IN HINFO <token> \"\"\n": the first character string, read by scan_charstr =
-   scan_octets with its fast path on the raw text of the token *)
-Definition c06_hinfo (q : bool) (tok : text) : outcome bytes :=
-  let tail := (if q then [ch_quote] else []) ++ [32; 34; 34; ch_lf] in
-  let line := [46; 32; 48; 32; 73; 78; 32; 72; 73; 78; 70; 79; 32] ++ (if q then [ch_quote] else []) ++ tok ++ tail in
+(* ". 0 IN HINFO <token> \"\"\n" (which = 0: scan_charstr = scan_octets) or ". 0 IN TXT <token>\n"
+   (which = 1: convert_charstr): the first character string, read with the fast path on the raw
+   text of the token *)
+Definition c06_hinfo (which : N) (q : bool) (tok : text) : outcome bytes :=
+  let tail := (if q then [ch_quote] else []) ++ (if which =? 0 then [32; 34; 34; ch_lf] else [ch_lf]) in
+  let head := if which =? 0 then [46; 32; 48; 32; 73; 78; 32; 72; 73; 78; 70; 79; 32] else [46; 32; 48; 32; 73; 78; 32; 84; 88; 84; 32] in
+  let line := head ++ (if q then [ch_quote] else []) ++ tok ++ tail in
   do ts <- tokenize line;
-  match ts with
-  | [_; _; _; _; t5; _] =>
+  if negb (Nat.eqb (length ts) (if which =? 0 then 6 else 5)) then Err E_tokens else
+  match nth_error ts 4 with
+  | Some t5 =>
       (* ZoneRecordData::scan first looks for the generic-form marker `\#` *)
       if is_marker t5 then Err E_generic else
       do x <- scan_octets_text q (tok ++ tail);
       if charstr_latest <? len (fst x) then Err E_charstr else Ok (fst x)
+  | None => Err E_tokens
+  end.
+
+(* ". 0 IN NS <token>\n": scan_name / convert_label with the fast path on the raw text *)
+Definition c06_nstext (tok : text) : outcome (list bytes) :=
+  do ts <- tokenize ([46; 32; 48; 32; 73; 78; 32; 78; 83; 32] ++ tok ++ [ch_lf]);
+  match ts with
+  | [_; _; _; _; t5] =>
+      if is_marker t5 then Err E_generic else
+      do x <- lex_fast false (tok ++ [ch_lf]);
+      read_name None (mk_tok false true (fst x))
   | _ => Err E_tokens
   end.
 
